@@ -145,3 +145,71 @@ pub fn parse_attr(s: &str) -> syn::Attribute {
 pub fn squash(s: &str) -> String {
     s.chars().filter(|c| !c.is_whitespace()).collect()
 }
+
+/// Canonical text of a Rust type: token-level details that do not change the type are erased
+/// (integer-literal suffix of an array length, trailing commas, parentheses, whitespace), so that
+/// string comparison of types never distinguishes two spellings of the same type.
+pub fn canon_type(ty: &syn::Type) -> String {
+    fn path(p: &syn::Path) -> String {
+        let mut out = String::new();
+        if p.leading_colon.is_some() {
+            out.push_str("::");
+        }
+        let segs: Vec<String> = p
+            .segments
+            .iter()
+            .map(|s| {
+                let mut x = s.ident.to_string();
+                match &s.arguments {
+                    syn::PathArguments::AngleBracketed(a) => {
+                        let args: Vec<String> = a
+                            .args
+                            .iter()
+                            .map(|g| match g {
+                                syn::GenericArgument::Type(t) => canon_type(t),
+                                other => squash(&quote::quote!(#other).to_string()),
+                            })
+                            .collect();
+                        x.push_str(&format!("<{}>", args.join(",")));
+                    }
+                    syn::PathArguments::Parenthesized(a) => x.push_str(&squash(&quote::quote!(#a).to_string())),
+                    syn::PathArguments::None => {}
+                }
+                x
+            })
+            .collect();
+        out.push_str(&segs.join("::"));
+        out
+    }
+    match ty {
+        syn::Type::Paren(p) => canon_type(&p.elem),
+        syn::Type::Group(g) => canon_type(&g.elem),
+        syn::Type::Tuple(t) => {
+            let e: Vec<String> = t.elems.iter().map(canon_type).collect();
+            if e.len() == 1 {
+                format!("({},)", e[0])
+            } else {
+                format!("({})", e.join(","))
+            }
+        }
+        syn::Type::Array(a) => {
+            let len = match &a.len {
+                syn::Expr::Lit(syn::ExprLit {
+                    lit: syn::Lit::Int(i), ..
+                }) => i.base10_digits().to_string(),
+                other => squash(&quote::quote!(#other).to_string()),
+            };
+            format!("[{};{}]", canon_type(&a.elem), len)
+        }
+        syn::Type::Path(p) if p.qself.is_none() => path(&p.path),
+        other => squash(&quote::quote!(#other).to_string()),
+    }
+}
+
+/// canonical text of a type given as a string (falls back to the squashed string)
+pub fn canon_type_str(s: &str) -> String {
+    match syn::parse_str::<syn::Type>(s) {
+        Ok(t) => canon_type(&t),
+        Err(_) => squash(s),
+    }
+}
